@@ -1536,3 +1536,17 @@ B('split-pulls-under-a-lock', ['C18'], ['C18-R8'],
   (I, "def exhaust(", "def _synchronized(it: Any, lock: Any) -> Any:\n    with lock:\n        for value in it:\n            yield value\n\n\n_PULLS = RLock()\n\n\ndef exhaust("))
 B('bat-batch-of-one-runs-in-the-caller', ['C09', 'C04'], ['C09-R5', 'C04-B8'],
   (A, "        await self._queue.put((key, arg, fut))\n", "        if self.max_batch_size > 1:\n            self._queue.put_nowait((key, arg, fut))\n        else:\n            await self._process_batch([(key, arg, fut)])\n"))
+
+# --- from the mutant re-check after round 3: liveness halves of safety rules, and a loader bug ------------------------------
+B('parse-guard-never-true', ['C19'], ['C19-R4'],
+  (P, "        if isinstance(x, str):\n            try:\n                return parse(x)\n", "        if False:\n            try:\n                return parse(x)\n"))
+B('lock-slow-path-never-succeeds', ['C02', 'C12'], ['C02-R1', 'C12-R1'],
+  (F, "                if self.is_locked:\n                    _logger.info('Lock %s acquired on %s', lid, fn)\n                    break\n",
+      "                if False:\n                    _logger.info('Lock %s acquired on %s', lid, fn)\n                    break\n"))
+B('lock-nested-acquire-locks-again', ['C12'], ['C12-R1'],
+  (F, "        self._lock_counter += 1  # Keep lock counter synced with RLock\n\n        if self.is_locked:\n            return True\n",
+      "        self._lock_counter += 1  # Keep lock counter synced with RLock\n\n        if False:\n            return True\n"))
+B('loop-thread-worker-does-not-run-the-loop', ['C17'], ['C17-R5'],
+  (A, "            aio.set_event_loop(loop)\n            loop.run_forever()\n", "            aio.set_event_loop(loop)\n            pass\n"))
+B('buf-runner-handler-only-reraises', ['C03'], ['C03-S3'],
+  (A, "        except BaseException as e:  # noqa\n            logging.exception(\"Failed to run %s, retrying\", self.func)\n", "        except BaseException as e:  # noqa\n            raise\n"))
